@@ -432,6 +432,39 @@ func run(rt *rapid.T, npieces int, idleRate uint32, steps []step) (fail string, 
 				return f, labels, hist
 			}
 		}
+		// the prefetcher's picks are for an idle torrent: a scheduling pass that
+		// finds a consumer waiting for something it can get (requested, not yet
+		// there, available) withdraws them, and so does every configuration change
+		idleOnly := func() []uint32 {
+			var l []uint32
+			for i, g := range tor.VerifRequested(t) {
+				if len(g.Prio) == 0 {
+					l = append(l, i)
+				}
+			}
+			sort.Slice(l, func(a, b int) bool { return l[a] < l[b] })
+			return l
+		}
+		switch s.Kind {
+		case "setconf":
+			if l := idleOnly(); len(l) > 0 {
+				return fmt.Sprintf("after %s: pieces %v are still requested on the idle prefetcher's behalf although the configuration has just changed (its picks are withdrawn on every change)", hist[len(hist)-1], l) + describe(), labels, hist
+			}
+		case "request", "idle-tick", "periodic":
+			avail := tor.VerifAvailable(t)
+			waiting := -1
+			for i, pl := range prios {
+				if len(pl) > 0 && !t.Pieces.Complete(uint32(i)) && i < len(avail) && avail[i] > 0 {
+					waiting = i
+				}
+			}
+			if waiting >= 0 {
+				labels["scheduling-pass-with-a-consumer-waiting"] = true
+				if l := idleOnly(); len(l) > 0 {
+					return fmt.Sprintf("after %s: a consumer waits for piece %d (requested, not there yet, available) and pieces %v are still requested on the idle prefetcher's behalf: nobody wants them", hist[len(hist)-1], waiting, l) + describe(), labels, hist
+				}
+			}
+		}
 		if f := check("after " + hist[len(hist)-1]); f != "" {
 			return f, labels, hist
 		}
